@@ -379,17 +379,18 @@ impl<K: Hash + Eq, V, RH: BuildHasher, REH: BuildHasher, FH: BuildHasher, FEH: B
                 self.p += delta;
             }
 
+            // remove from recent evict first: replace() may push into the (full) ghost list
+            // and must not push this very entry out
+            let mut ent = self.recent_evict.map.remove(&key_ref).unwrap();
+            self.recent_evict.detach(ent.as_ptr());
+
             // potentially need to make room in the cache
             if self.recent.len() + self.frequent.len() >= self.size {
                 self.replace(false);
             }
 
-            // remove from recent evict
-            let mut ent = self.recent_evict.map.remove(&key_ref).unwrap();
             unsafe {
-                let ent_ptr = ent.as_mut();
-                self.recent_evict.detach(ent_ptr);
-                swap_value(&mut v, ent_ptr);
+                swap_value(&mut v, ent.as_mut());
             }
 
             // add the key to the frequently used list
@@ -412,17 +413,18 @@ impl<K: Hash + Eq, V, RH: BuildHasher, REH: BuildHasher, FH: BuildHasher, FEH: B
                 self.p -= delta;
             }
 
+            // remove from frequent evict first: replace() may push into the (full) ghost list
+            // and must not push this very entry out
+            let mut ent = self.frequent_evict.map.remove(&key_ref).unwrap();
+            self.frequent_evict.detach(ent.as_ptr());
+
             // Potentially need to make room in the cache
             if recent_len + freq_len >= self.size {
                 self.replace(true);
             }
 
-            // remove from frequent evict
-            let mut ent = self.frequent_evict.map.remove(&key_ref).unwrap();
             unsafe {
-                let ent_ptr = ent.as_mut();
-                self.frequent_evict.detach(ent_ptr);
-                swap_value(&mut v, ent_ptr);
+                swap_value(&mut v, ent.as_mut());
             }
 
             // add the key to the frequently used list
